@@ -208,6 +208,8 @@ def step(ctx, st, op, H):
             s, e = (int(a * (n - 1)) + op["off"]) * dt, (int(b * (n - 1)) + op["off"]) * dt
         elif kind == "outside_end":
             s, e = a * T, T + (0.5 + b) * dt * 3
+            if op["off"] in (0.25, 0.4, 0.49):
+                e = T + op["off"] * dt                       # only a fraction of a sample past the end
         elif kind == "negative":
             s, e = -(0.1 + a) * dt * 5, b * T
         elif kind == "inverted":
